@@ -248,7 +248,7 @@ func (l *IndexLoop) elementOffset() {
 	for b := range l.Body {
 		for _, in := range b.Instrs {
 			ia, ok := in.(*ssa.IndexAddr)
-			if !ok || ia.X != l.LenOf {
+			if !ok || !sameSlice(ia.X, l.LenOf) {
 				continue
 			}
 			k := 0
@@ -278,6 +278,22 @@ func (l *IndexLoop) elementOffset() {
 	if seen && consistent && off != 0 {
 		l.Lo, l.HiOff = l.Lo+off, l.HiOff-off
 	}
+}
+
+// sameSlice: the same SSA value, or two loads of the same field of the same struct value
+// (go/ssa re-loads k.tables for len(k.tables) and for k.tables[i]).
+func sameSlice(a, b ssa.Value) bool {
+	if a == b {
+		return true
+	}
+	ua, ok1 := a.(*ssa.UnOp)
+	ub, ok2 := b.(*ssa.UnOp)
+	if !ok1 || !ok2 || ua.Op != token.MUL || ub.Op != token.MUL {
+		return false
+	}
+	fa, ok1 := ua.X.(*ssa.FieldAddr)
+	fb, ok2 := ub.X.(*ssa.FieldAddr)
+	return ok1 && ok2 && fa.X == fb.X && fa.Field == fb.Field
 }
 
 // throughReslice expresses a loop over sub := base[low : len(base)-c] in terms of base:
